@@ -75,6 +75,7 @@ const (
 	cDuplexAfterCtxEnd
 	cUndecodablePassedOn
 	cDensePartition
+	cUndecodableJudged
 	numCounters
 )
 
